@@ -166,3 +166,18 @@ def listener_plans(draw, calls, max_plans=2):
         arg = draw(TEXTS) if what in ('pause', 'kill') else None
         plans.append({'on': on, 'occ': draw(st.integers(1, 3)), 'do': [what, arg]})
     return plans
+
+
+HOOK_SITES = ['on_run', 'on_running', 'on_exit_running', 'on_wait', 'on_waiting', 'on_exit_waiting', 'on_finish', 'on_finished', 'on_entering', 'on_entered', 'on_exiting', 'on_output_emitted', 'on_kill', 'on_paused', 'on_playing']
+
+
+@st.composite
+def hook_plans(draw, calls, max_plans=2):
+    """Control calls issued by (non-raising) lifecycle hook overrides."""
+    n = draw(st.integers(0, max_plans))
+    plans = []
+    for _ in range(n):
+        what = draw(st.sampled_from(calls))
+        arg = draw(TEXTS) if what in ('pause', 'kill') else None
+        plans.append({'hook': draw(st.sampled_from(HOOK_SITES)), 'occ': draw(st.integers(1, 3)), 'pos': draw(st.sampled_from(['pre', 'post'])), 'do': [what, arg]})
+    return plans
